@@ -132,7 +132,8 @@ def run_model_sharded(cases, outp, work, tmo):
     run in parallel (the driver is single-threaded), outputs concatenated in order"""
     drv = os.path.join(VERIF, "bin", "driver")
     size = os.path.getsize(cases)
-    nsh = 1 if size < (4 << 20) else min(16, max(2, size >> 22))
+    nlines = sum(1 for _ in open(cases, errors="replace"))
+    nsh = 1 if (size < (4 << 20) and nlines < 1500) else min(16, max(2, size >> 22, nlines // 400))
     if nsh == 1:
         return sh("ulimit -v 16000000; ulimit -s unlimited; %s %s %s" % (drv, cases, outp), tmo)
     lines = open(cases).read().splitlines(True)
